@@ -6,33 +6,69 @@ search methods of $TEXSOUP_REPO/TexSoup/data.py (default /repo).
   TexNode.all / children / contents / descendants / __descendants / text /
           __iter__ / __getitem__ / __match__ / find_all / find / count /
           __getattr__
+  TexNode.__init__ (what `TexNode(x)` builds)
+  the __str__ methods of TexNode / TexEnv / TexCmd / TexText / TexArgs (what
+          `str(x)` returns)
 
 are read with the Python `ast` module only (nothing is imported or executed)
 and written as terms of the language of coq/theories/Model/ViewDSL.v, one Coq
 constructor per Python construct.  Proofs/ViewGenProofs.v then proves that
 interpreting each generated term is the hand-written function of
-Model/Views.v.
+Model/Views.v (for __init__ / __str__: that it is the interpreter's primitive
+reading of `TexNode(x)` / `str(x)`).
 
 Fail-closed: any statement or expression shape that is not listed in
 ViewDSL.v raises TranslationError, as does a change of what the reading
 relies on:
   * the set of classes of data.py and their bases (the dispatch of the
     interpreter: TexNode / TexEnv and subclasses / other TexExpr);
-  * which class defines which translated name (no further override), and
-    that no class of the hierarchy defines __getattribute__, __bool__,
-    __len__, __setattr__ ..., nor __getattr__ outside TexNode;
+  * which class defines which translated name (no further override, no further
+    __str__), and that no class of the hierarchy defines __getattribute__,
+    __bool__, __len__, __setattr__, __format__ ..., nor __getattr__ outside
+    TexNode;
   * a rebinding of isinstance / hasattr / getattr / str / list / len / iter /
     filter / super / property / to_list / itertools / the class names;
   * the source of the code the interpreter's primitives stand for, pinned to
-    the reference text below: utils.to_list, Token.__new__ / __getattr__ /
-    __str__, TexNode.__init__ / __str__, TexExpr.__init__, TexEnv.__init__ /
-    begin / end / __str__, TexNamedEnv.__init__ / begin / end,
-    TexUnNamedEnv, TexCmd.__str__, TexText.__init__ / __str__,
-    TexGroup.__init__, TexArgs.__str__.
+    the reference text below (compared after the normalisation described
+    next, up to the names of locals): utils.to_list, Token.__new__ (up to its
+    `position` / `category` assignments, which no view reads) / __getattr__ /
+    __str__, TexExpr.__init__, TexEnv.__init__ / begin / end,
+    TexNamedEnv.__init__ / begin / end, TexUnNamedEnv, TexText.__init__,
+    TexGroup.__init__.
 
 The output depends on the abstract syntax only: comments, docstrings, layout
-and the names of parameters and locals do not change it; `filter(lambda x: c,
-l)`, `(x for x in l if c)` and `[x for x in l if c]` are the same term.
+and the names of locals do not change it (the names of the parameters are
+recorded: a key of a `**` dict that names a parameter is refused);
+`filter(lambda x: c, l)`, `(x for x in l if c)` and `[x for x in l if c]` are
+the same term.
+
+Before a function is translated (or compared with its pinned reference) it is
+NORMALISED, so that the usual behaviour-preserving rewrites give the same
+program (section "normalisation" below; every rule is a syntactic identity of
+Python, its side condition is checked, and anything else is left alone):
+  * annotations are dropped (parameters, return, `x: T = e`);
+  * `getattr(x, 'name')` with a constant identifier is `x.name`;
+    `k in d.keys()` is `k in d`; `x += e` on a local is `x = x + e` (the
+    interpreter adds only str and int, which are immutable; a list is OUnsup);
+    `''.join(map(f, l))` is `''.join([f(v) for v in l])`; an f-string with
+    plain fields is the %s formatting (both are the term TFormat);
+  * `list(e)` around a call / property that is decorated with to_list in every
+    class of the hierarchy defining it is `e` (the result is already a fresh
+    list, and the language has no operation that tells a list from its copy);
+  * a module-level helper function (plain `def`, positional parameters that
+    are never assigned, one `return` at the end, no yield) called with names /
+    constants is inlined: an expression helper anywhere, a helper with
+    statements where the call is the whole right-hand side / yielded /
+    returned value;
+  * `t = a if c else b`, `return a if c else b` are the if statements;
+  * `yield from e` is `for v in e: yield v` (v fresh);
+  * `return [not] any/all(c for x in l)` (generator argument: short-circuit)
+    is the loop with an early return;
+  * `if c: ..return else: rest` is `if c: ..return` followed by rest;
+  * a local assigned once, read once, the read being the first thing the next
+    statement evaluates, is replaced by its definition.
+A private or otherwise unknown method of TexNode / TexExpr / TexEnv that a
+translated body calls is translated as well (method name `M_extra i`).
 
 Usage: gen_views.py <out.v>       exit 0 = written (only if content changed)
                                   exit 2 = translation failed (message on stderr)
@@ -72,8 +108,508 @@ def strip_doc(body):
     return body
 
 
-def norm_fn(fn):
-    return (ast.dump(fn.args), [ast.dump(x) for x in strip_doc(fn.body)],
+# ---------------------------------------------------------------- normalisation
+#
+# Every rule below rewrites a function into one that Python evaluates in the
+# same way (same calls in the same order, same values, same exceptions); the
+# side condition of each rule is checked syntactically and a rule that does not
+# apply leaves the code as it is (so it is then translated, or refused, as
+# written).  Fresh names contain `%` and cannot clash with Python identifiers.
+
+class Norm(object):
+    """context of the normalisation of one module"""
+
+    def __init__(self, helpers=None, tolist=()):
+        self.helpers = helpers or {}      # name -> helper description
+        self.tolist = set(tolist)         # attribute names that always denote a fresh list
+        self.n = 0
+
+    def fresh(self, base='t'):
+        self.n += 1
+        return '%%%s%d' % (base, self.n)
+
+
+def is_ident(s):
+    return isinstance(s, str) and s.isidentifier() and not (s.startswith('__') and not s.endswith('__'))
+
+
+def bound_names(fn):
+    """every name bound anywhere inside the function (parameters included)"""
+    out = set()
+    a = fn.args
+    for x in a.args + a.kwonlyargs + getattr(a, 'posonlyargs', []) + \
+            ([a.vararg] if a.vararg else []) + ([a.kwarg] if a.kwarg else []):
+        out.add(x.arg)
+    for n in ast.walk(fn):
+        if isinstance(n, ast.Name) and not isinstance(n.ctx, ast.Load):
+            out.add(n.id)
+        elif isinstance(n, ast.arg):
+            out.add(n.arg)
+        elif isinstance(n, ast.ExceptHandler) and n.name:
+            out.add(n.name)
+        elif isinstance(n, (ast.FunctionDef, ast.ClassDef)) and n is not fn:
+            out.add(n.name)
+        elif isinstance(n, (ast.Import, ast.ImportFrom)):
+            for al in n.names:
+                out.add((al.asname or al.name).split('.')[0])
+    return out
+
+
+def param_names(fn):
+    a = fn.args
+    return [x.arg for x in getattr(a, 'posonlyargs', []) + a.args + a.kwonlyargs
+            + ([a.vararg] if a.vararg else []) + ([a.kwarg] if a.kwarg else [])]
+
+
+class _Subst(ast.NodeTransformer):
+    def __init__(self, mapping):
+        self.mapping = mapping
+
+    def visit_Name(self, n):
+        if n.id in self.mapping:
+            new = self.mapping[n.id]
+            if isinstance(new, str):
+                return ast.copy_location(ast.Name(id=new, ctx=n.ctx), n)
+            if isinstance(n.ctx, ast.Load):
+                return ast.copy_location(_copy(new), n)
+        return n
+
+
+def _copy(n):
+    import copy
+    return copy.deepcopy(n)
+
+
+def helper_info(fn):
+    """a module-level def that may be inlined, or None"""
+    a = fn.args
+    if fn.decorator_list or a.vararg or a.kwarg or a.kwonlyargs or a.defaults or a.kw_defaults \
+            or getattr(a, 'posonlyargs', []):
+        return None
+    params = [x.arg for x in a.args]
+    if len(set(params)) != len(params):
+        return None
+    body = strip_doc(fn.body)
+    if not body or not isinstance(body[-1], ast.Return) or body[-1].value is None:
+        return None
+    for n in ast.walk(fn):
+        if n is fn:
+            continue
+        if isinstance(n, (ast.FunctionDef, ast.AsyncFunctionDef, ast.ClassDef, ast.Lambda, ast.Yield,
+                          ast.YieldFrom, ast.Await, ast.Global, ast.Nonlocal, ast.Import,
+                          ast.ImportFrom, ast.NamedExpr, ast.Delete, ast.Try, ast.With)):
+            return None
+        if isinstance(n, ast.Return) and n is not body[-1]:
+            return None
+        if isinstance(n, ast.Name) and n.id in params and not isinstance(n.ctx, ast.Load):
+            return None
+        if isinstance(n, ast.Name) and n.id == fn.name:
+            return None                       # recursive
+        if isinstance(n, ast.comprehension):
+            for x in ast.walk(n.target):
+                if isinstance(x, ast.Name) and x.id in params:
+                    return None
+    locs = bound_names(fn) - set(params)
+    free = set(n.id for n in ast.walk(fn) if isinstance(n, ast.Name)) - locs - set(params)
+    return dict(name=fn.name, params=params, body=body, locals=sorted(locs), free=free,
+                is_expr=(len(body) == 1))
+
+
+def atomic(n):
+    return isinstance(n, ast.Name) and isinstance(n.ctx, ast.Load) or \
+        (isinstance(n, ast.Constant) and (n.value is None or type(n.value) in (bool, int, str)))
+
+
+class _ExprRules(ast.NodeTransformer):
+    """the expression-level identities"""
+
+    def __init__(self, nm, scope_names):
+        self.nm = nm
+        self.scope = scope_names    # names bound in the function being normalised
+
+    def free(self, name):
+        return name not in self.scope
+
+    def visit_Call(self, n):
+        self.generic_visit(n)
+        f = n.func
+        if isinstance(f, ast.Name) and self.free(f.id) and not n.keywords \
+                and not any(isinstance(x, ast.Starred) for x in n.args):
+            # getattr(x, 'name') = x.name
+            if f.id == 'getattr' and len(n.args) == 2 and isinstance(n.args[1], ast.Constant) \
+                    and is_ident(n.args[1].value):
+                return ast.copy_location(ast.Attribute(value=n.args[0], attr=n.args[1].value,
+                                                       ctx=ast.Load()), n)
+            # list(x.m(..)) / list(x.m) = the fresh list m returns
+            if f.id == 'list' and len(n.args) == 1:
+                e = n.args[0]
+                at = e.func if isinstance(e, ast.Call) else e
+                if isinstance(at, ast.Attribute) and at.attr in self.nm.tolist:
+                    return e
+            # an expression helper
+            h = self.nm.helpers.get(f.id)
+            if h and h['is_expr'] and len(n.args) == len(h['params']) and all(atomic(x) for x in n.args) \
+                    and not (h['free'] & self.scope) and not h['locals']:
+                e = _Subst(dict(zip(h['params'], n.args))).visit(_copy(h['body'][0].value))
+                e = _ExprRules(self.nm, self.scope).visit(e)
+                return ast.copy_location(e, n)
+        # ''.join(map(f, l)) = ''.join([f(v) for v in l])
+        if isinstance(f, ast.Attribute) and f.attr == 'join' and len(n.args) == 1 and not n.keywords \
+                and isinstance(n.args[0], ast.Call) and isinstance(n.args[0].func, ast.Name) \
+                and n.args[0].func.id == 'map' and self.free('map') and len(n.args[0].args) == 2 \
+                and not n.args[0].keywords and isinstance(n.args[0].args[0], ast.Name):
+            m = n.args[0]
+            v = self.nm.fresh('m')
+            comp = ast.ListComp(
+                elt=ast.Call(func=m.args[0], args=[ast.Name(id=v, ctx=ast.Load())], keywords=[]),
+                generators=[ast.comprehension(target=ast.Name(id=v, ctx=ast.Store()), iter=m.args[1],
+                                              ifs=[], is_async=0)])
+            n.args = [ast.copy_location(comp, m)]
+            ast.fix_missing_locations(n)
+        return n
+
+    def visit_Compare(self, n):
+        self.generic_visit(n)
+        # k in d.keys() = k in d
+        if len(n.ops) == 1 and isinstance(n.ops[0], (ast.In, ast.NotIn)):
+            c = n.comparators[0]
+            if isinstance(c, ast.Call) and isinstance(c.func, ast.Attribute) and c.func.attr == 'keys' \
+                    and not c.args and not c.keywords:
+                n.comparators = [c.func.value]
+        return n
+
+
+def terminates(body):
+    if not body:
+        return False
+    s = body[-1]
+    if isinstance(s, (ast.Return, ast.Raise, ast.Continue, ast.Break)):
+        return True
+    if isinstance(s, ast.If):
+        return terminates(s.body) and terminates(s.orelse)
+    return False
+
+
+def sub_blocks(s):
+    """the statement lists directly inside a statement, as (object, field) pairs"""
+    out = []
+    for fld in ('body', 'orelse', 'finalbody'):
+        v = getattr(s, fld, None)
+        if isinstance(v, list) and (not v or isinstance(v[0], ast.stmt)):
+            out.append((s, fld))
+    for h in getattr(s, 'handlers', []) or []:
+        out.append((h, 'body'))
+    return out
+
+
+def map_blocks(body, f):
+    """apply f (list of statements -> list of statements) bottom-up to every block"""
+    for s in body:
+        if isinstance(s, (ast.FunctionDef, ast.AsyncFunctionDef, ast.ClassDef)):
+            continue
+        for obj, fld in sub_blocks(s):
+            setattr(obj, fld, map_blocks(getattr(obj, fld), f))
+    return f(body)
+
+
+def any_all_loop(nm, s):
+    """return [not] any/all(c for x in l)  ->  the loop (generator argument only)"""
+    if not isinstance(s, ast.Return) or s.value is None:
+        return None
+    v, neg = s.value, False
+    if isinstance(v, ast.UnaryOp) and isinstance(v.op, ast.Not):
+        v, neg = v.operand, True
+    if not (isinstance(v, ast.Call) and isinstance(v.func, ast.Name) and v.func.id in ('any', 'all')
+            and len(v.args) == 1 and not v.keywords and isinstance(v.args[0], ast.GeneratorExp)):
+        return None
+    g = v.args[0]
+    if len(g.generators) != 1 or g.generators[0].is_async:
+        return None
+    gen = g.generators[0]
+    is_any = v.func.id == 'any'
+    # any: `if c: return not neg`, at the end `return neg`;  all: `if not c: return neg`, at the end `return not neg`
+    if is_any:
+        test = g.elt
+    elif isinstance(g.elt, ast.UnaryOp) and isinstance(g.elt.op, ast.Not):
+        test = g.elt.operand      # `if not not c` tests what `if c` tests
+    else:
+        test = ast.UnaryOp(op=ast.Not(), operand=g.elt)
+    hit = (not neg) if is_any else neg
+    inner = ast.If(test=test, body=[ast.Return(value=ast.Constant(value=hit))], orelse=[])
+    for c in reversed(gen.ifs):
+        inner = ast.If(test=c, body=[inner], orelse=[])
+    loop = ast.For(target=_store(gen.target), iter=gen.iter, body=[inner], orelse=[])
+    last = ast.Return(value=ast.Constant(value=not hit))
+    for x in (loop, last):
+        ast.copy_location(x, s)
+        ast.fix_missing_locations(x)
+    return [loop, last]
+
+
+def _store(t):
+    t = _copy(t)
+    for x in ast.walk(t):
+        if isinstance(x, (ast.Name, ast.Tuple, ast.List, ast.Starred)):
+            x.ctx = ast.Store()
+    return t
+
+
+def first_leaf(n, t):
+    """the Name node `t` if it is the first thing evaluated by statement / expression n, else None"""
+    if n is None:
+        return None
+    if isinstance(n, ast.Name):
+        return n if (n.id == t and isinstance(n.ctx, ast.Load)) else None
+    if isinstance(n, ast.Expr):
+        v = n.value
+        if isinstance(v, (ast.Yield, ast.YieldFrom)):
+            return first_leaf(v.value, t)
+        return first_leaf(v, t)
+    if isinstance(n, ast.Assign):
+        return first_leaf(n.value, t)
+    if isinstance(n, (ast.Return,)):
+        return first_leaf(n.value, t)
+    if isinstance(n, (ast.If, ast.Assert, ast.IfExp)):
+        return first_leaf(n.test, t)
+    if isinstance(n, ast.For):
+        return first_leaf(n.iter, t)
+    if isinstance(n, (ast.Attribute, ast.Subscript, ast.Starred)):
+        return first_leaf(n.value, t) if isinstance(getattr(n, 'ctx', ast.Load()), ast.Load) else None
+    if isinstance(n, ast.Call):
+        if isinstance(n.func, ast.Name):
+            if n.func.id == t:
+                return None
+            return first_leaf(n.args[0], t) if n.args else None
+        return first_leaf(n.func, t)
+    if isinstance(n, ast.BinOp):
+        return first_leaf(n.left, t)
+    if isinstance(n, ast.BoolOp):
+        return first_leaf(n.values[0], t)
+    if isinstance(n, ast.Compare):
+        return first_leaf(n.left, t)
+    if isinstance(n, ast.UnaryOp):
+        return first_leaf(n.operand, t)
+    if isinstance(n, (ast.Tuple, ast.List, ast.Set)):
+        if not n.elts or not isinstance(getattr(n, 'ctx', ast.Load()), ast.Load):
+            return None
+        return first_leaf(n.elts[0], t)
+    if isinstance(n, (ast.ListComp, ast.GeneratorExp, ast.SetComp)):
+        return first_leaf(n.generators[0].iter, t)
+    return None
+
+
+class _ReplaceNode(ast.NodeTransformer):
+    def __init__(self, old, new):
+        self.old, self.new = old, new
+
+    def visit(self, n):
+        if n is self.old:
+            return self.new
+        return self.generic_visit(n)
+
+
+def normalise_fn(fn, nm):
+    """a normalised deep copy of the FunctionDef fn"""
+    fn = _copy(fn)
+    fn.body = strip_doc(fn.body)
+    # ---- annotations
+    fn.returns = None
+    for x in ast.walk(fn.args):
+        if isinstance(x, ast.arg):
+            x.annotation = None
+    scope = bound_names(fn)
+
+    def ann(body):
+        out = []
+        for s in body:
+            if isinstance(s, ast.AnnAssign):
+                # `x: T` alone makes x a local without binding it: not a statement of the fragment
+                need(s.value is not None, 'annotation without a value at %s' % where(s))
+                s = ast.copy_location(ast.Assign(targets=[s.target], value=s.value), s)
+            elif isinstance(s, ast.AugAssign) and isinstance(s.target, ast.Name) \
+                    and isinstance(s.op, ast.Add):
+                s = ast.copy_location(ast.Assign(
+                    targets=[s.target],
+                    value=ast.BinOp(left=ast.Name(id=s.target.id, ctx=ast.Load()), op=ast.Add(),
+                                    right=s.value)), s)
+                ast.fix_missing_locations(s)
+            elif isinstance(s, ast.Pass) or (isinstance(s, ast.Expr) and isinstance(s.value, ast.Constant)
+                                             and isinstance(s.value.value, str)):
+                continue
+            out.append(s)
+        return out
+    fn.body = map_blocks(fn.body, ann)
+    # ---- expression identities (and expression helpers)
+    rules = _ExprRules(nm, scope)
+    fn.body = [rules.visit(s) for s in fn.body]
+
+    # ---- helpers with statements: x = h(..) / return h(..) / yield h(..) / h(..)
+    def call_site(s):
+        """(call, rebuild) if the statement is a whole-value call of a statement helper"""
+        if isinstance(s, ast.Assign):
+            v, mk = s.value, lambda e: ast.Assign(targets=s.targets, value=e)
+        elif isinstance(s, ast.Return):
+            v, mk = s.value, lambda e: ast.Return(value=e)
+        elif isinstance(s, ast.Expr) and isinstance(s.value, ast.Yield):
+            v, mk = s.value.value, lambda e: ast.Expr(value=ast.Yield(value=e))
+        elif isinstance(s, ast.Expr):
+            v, mk = s.value, lambda e: ast.Expr(value=e)
+        else:
+            return None
+        if not (isinstance(v, ast.Call) and isinstance(v.func, ast.Name) and v.func.id not in scope
+                and not v.keywords):
+            return None
+        h = nm.helpers.get(v.func.id)
+        if not h or h['is_expr'] or len(v.args) != len(h['params']) or not all(atomic(x) for x in v.args) \
+                or (h['free'] & scope):
+            return None
+        return v, h, mk
+
+    def inline(body):
+        out = []
+        for s in body:
+            site = call_site(s)
+            if site is None:
+                out.append(s)
+                continue
+            v, h, mk = site
+            mapping = dict(zip(h['params'], v.args))
+            for l in h['locals']:
+                mapping[l] = nm.fresh('h')
+                scope.add(mapping[l])
+            stmts = [_Subst(mapping).visit(_copy(x)) for x in h['body']]
+            stmts = [rules.visit(x) for x in map_blocks(stmts, ann)]
+            last = stmts.pop()
+            for x in stmts:
+                for y in ast.walk(x):
+                    if hasattr(y, 'lineno'):
+                        y.lineno = s.lineno
+            new = ast.copy_location(mk(last.value), s)
+            ast.fix_missing_locations(new)
+            out.extend(stmts)
+            out.append(new)
+        return out
+    fn.body = map_blocks(fn.body, inline)
+
+    # ---- conditional expressions as statements, yield from, any / all
+    def stmts(body):
+        out = []
+        for s in body:
+            if isinstance(s, ast.Assign) and isinstance(s.value, ast.IfExp):
+                v = s.value
+                new = ast.If(test=v.test, body=[ast.Assign(targets=s.targets, value=v.body)],
+                             orelse=[ast.Assign(targets=_copy(s.targets), value=v.orelse)])
+                ast.copy_location(new, s)
+                ast.fix_missing_locations(new)
+                new.body = stmts(new.body)
+                new.orelse = stmts(new.orelse)
+                out.append(new)
+                continue
+            if isinstance(s, ast.Return) and isinstance(s.value, ast.IfExp):
+                v = s.value
+                new = ast.If(test=v.test, body=[ast.Return(value=v.body)], orelse=[ast.Return(value=v.orelse)])
+                ast.copy_location(new, s)
+                ast.fix_missing_locations(new)
+                new.body = stmts(new.body)
+                new.orelse = stmts(new.orelse)
+                out.append(new)
+                continue
+            if isinstance(s, ast.Expr) and isinstance(s.value, ast.YieldFrom):
+                v = nm.fresh('y')
+                scope.add(v)
+                new = ast.For(target=ast.Name(id=v, ctx=ast.Store()), iter=s.value.value,
+                              body=[ast.Expr(value=ast.Yield(value=ast.Name(id=v, ctx=ast.Load())))],
+                              orelse=[])
+                ast.copy_location(new, s)
+                ast.fix_missing_locations(new)
+                out.append(new)
+                continue
+            r = any_all_loop(nm, s)
+            if r is not None:
+                for x in ast.walk(r[0].target):
+                    if isinstance(x, ast.Name):
+                        scope.add(x.id)
+                out.extend(r)
+                continue
+            out.append(s)
+        return out
+    fn.body = map_blocks(fn.body, stmts)
+
+    # ---- else after a branch that always leaves
+    def flat(body):
+        out = []
+        for s in body:
+            out.append(s)
+            if isinstance(s, ast.If) and s.orelse and terminates(s.body):
+                rest, s.orelse = s.orelse, []
+                out.extend(rest)
+        return out
+    fn.body = map_blocks(fn.body, flat)
+
+    # ---- single-use temporaries
+    params = set(param_names(fn))
+    changed = True
+    while changed:
+        changed = False
+        loads, stores = {}, {}
+        for x in ast.walk(fn):
+            if isinstance(x, ast.Name):
+                d = loads if isinstance(x.ctx, ast.Load) else stores
+                d[x.id] = d.get(x.id, 0) + 1
+
+        def temps(body):
+            nonlocal changed
+            out = list(body)
+            i = 0
+            while i + 1 < len(out):
+                s = out[i]
+                if isinstance(s, ast.Assign) and len(s.targets) == 1 and isinstance(s.targets[0], ast.Name) \
+                        and not changed:
+                    t = s.targets[0].id
+                    if t not in params and stores.get(t) == 1 and loads.get(t) == 1 \
+                            and not any(isinstance(x, (ast.Yield, ast.YieldFrom, ast.NamedExpr, ast.Lambda))
+                                        for x in ast.walk(s.value)):
+                        leaf = first_leaf(out[i + 1], t)
+                        if leaf is not None:
+                            out[i + 1] = _ReplaceNode(leaf, s.value).visit(out[i + 1])
+                            del out[i]
+                            changed = True
+                            continue
+                i += 1
+            return out
+        fn.body = map_blocks(fn.body, temps)
+    ast.fix_missing_locations(fn)
+    return fn
+
+
+def alpha(fn):
+    """rename the locals (not the parameters) of a normalised function by first occurrence"""
+    params = set(param_names(fn))
+    mapping = {}
+    for x in ast.walk(fn):           # ast.walk is breadth-first and deterministic
+        if isinstance(x, ast.Name) and not isinstance(x.ctx, ast.Load) and x.id not in params \
+                and x.id not in mapping:
+            mapping[x.id] = '%%l%d' % len(mapping)
+    return _Subst(mapping).visit(fn)
+
+
+def norm_fn(fn, nm=None, drop_attrs=()):
+    fn = normalise_fn(fn, nm or Norm())
+    if drop_attrs:
+        def pure(e):
+            return all(isinstance(x, (ast.Name, ast.Constant, ast.BoolOp, ast.And, ast.Or, ast.Load,
+                                      ast.Attribute)) and
+                       (not isinstance(x, ast.Attribute) or (x.attr in drop_attrs and isinstance(x.value, ast.Name)))
+                       for x in ast.walk(e))
+
+        def drop(body):
+            return [s for s in body
+                    if not (isinstance(s, ast.Assign) and len(s.targets) == 1
+                            and isinstance(s.targets[0], ast.Attribute) and s.targets[0].attr in drop_attrs
+                            and isinstance(s.targets[0].value, ast.Name) and pure(s.value))]
+        fn.body = map_blocks(fn.body, drop)
+    fn = alpha(fn)
+    return (ast.dump(fn.args), [ast.dump(x) for x in fn.body],
             [ast.dump(d) for d in fn.decorator_list])
 
 
@@ -97,12 +633,15 @@ MORDER = ['all', 'children', 'contents', 'descendants', '__descendants', 'text',
           '__getitem__', '__match__', 'find_all', 'find', 'count', '__getattr__']
 ATTR = {'expr': 'A_expr', 'args': 'A_args', '_contents': 'A_contents_', '_text': 'A_text_',
         'name': 'A_name', 'begin': 'A_begin', 'end': 'A_end',
-        'preserve_whitespace': 'A_preserve_whitespace'}
+        'preserve_whitespace': 'A_preserve_whitespace', '_begin': 'A_begin_', '_end': 'A_end_'}
 CNAME = {'TexNode': 'CTexNode', 'TexExpr': 'CTexExpr', 'TexText': 'CTexText', 'TexCmd': 'CTexCmd',
-         'TexEnv': 'CTexEnv', 'str': 'CStr', 'list': 'CList'}
+         'TexEnv': 'CTexEnv', 'str': 'CStr', 'list': 'CList', 'TexGroup': 'CTexGroup',
+         'BraceGroup': 'CBraceGroup', 'BracketGroup': 'CBracketGroup', 'TexNamedEnv': 'CTexNamedEnv'}
 EXN = {'IndexError': 'XIndex', 'AssertionError': 'XAssertion'}
 BUILTINS = ('isinstance', 'hasattr', 'getattr', 'str', 'list', 'len', 'iter', 'filter', 'super',
-            'property', 'IndexError', 'AssertionError', 'object')
+            'property', 'IndexError', 'AssertionError', 'object', 'any', 'all', 'map')
+# the instance attributes TexNode.__init__ sets, in the order of their slots
+NODE_FIELDS = ['expr', 'parent', 'char_to_line']
 
 # class -> (kind, translated methods in output order)
 TABLE = [
@@ -141,24 +680,13 @@ DEFINERS = {
     '__new__': [], '__class__': [], '__init_subclass__': [], '__set_name__': [],
     '__instancecheck__': [], '__subclasscheck__': [], '__slots__': [], '__dict__': [],
     '_begin': ['TexEnv'], '_end': ['TexEnv'],
+    '__str__': ['TexCmd', 'TexEnv', 'TexNode', 'TexText'], '__format__': [],
 }
 
+# the __str__ methods: translated and proved to be the interpreter's reading of str()
+STR_TABLE = ['TexNode', 'TexEnv', 'TexCmd', 'TexText', 'TexArgs']
+
 PINNED_DATA = r'''
-class TexNode(object):
-    def __init__(self, expr, src=None):
-        assert isinstance(expr, TexExpr), \
-            'Expression given to node must be a valid TexExpr'
-        super().__init__()
-        self.expr = expr
-        self.parent = None
-        if src is not None:
-            self.char_to_line = CharToLineOffset(src)
-        else:
-            self.char_to_line = None
-
-    def __str__(self):
-        return str(self.expr)
-
 class TexExpr(object):
     def __init__(self, name, contents=(), args=(), preserve_whitespace=False,
                  position=-1):
@@ -191,14 +719,6 @@ class TexEnv(TexExpr):
     def end(self):
         return self._end
 
-    def __str__(self):
-        contents = ''.join(map(str, self._contents))
-        if self.name == '[tex]' and not self.begin and not self.end:
-            return contents
-        else:
-            return '%s%s%s' % (
-                self.begin + str(self.args), contents, self.end)
-
 class TexNamedEnv(TexEnv):
     def __init__(self, name, contents=(), args=(), preserve_whitespace=False,
                  position=-1):
@@ -225,30 +745,22 @@ class TexUnNamedEnv(TexEnv):
         super().__init__(self.name, self.begin, self.end,
                          contents, args, preserve_whitespace, position=position)
 
-class TexCmd(TexExpr):
-    def __str__(self):
-        if self._contents:
-            return '\\%s%s%s' % (self.name, self.args, ''.join(
-                [str(e) for e in self._contents]))
-        return '\\%s%s' % (self.name, self.args)
-
 class TexText(TexExpr, str):
     def __init__(self, text, position=-1):
         super().__init__('text', [text], position=position)
         self._text = text
-
-    def __str__(self):
-        return str(self._text)
 
 class TexGroup(TexUnNamedEnv):
     def __init__(self, *contents, preserve_whitespace=False, position=-1):
         super().__init__(contents, preserve_whitespace=preserve_whitespace,
                          position=position)
 
-class TexArgs(list):
-    def __str__(self):
-        return ''.join(map(str, self))
 '''
+
+# assignments of a pinned function that no view depends on (dropped on both
+# sides before the comparison, only when their right-hand side is built from
+# names, these attributes of names, and / or)
+PINNED_DROP = {'Token.__new__': ('position', 'category')}
 
 PINNED_UTILS = r'''
 class Token(str):
@@ -308,12 +820,13 @@ def is_setter(fn, name):
             and fn.decorator_list[0].attr == 'setter' and is_name(fn.decorator_list[0].value, name))
 
 
-def check_pinned(tree, ref_src, what):
+def check_pinned(tree, ref_src, what, nm):
     classes = {st.name: st for st in tree.body if isinstance(st, ast.ClassDef)}
     funcs = {st.name: st for st in tree.body if isinstance(st, ast.FunctionDef)}
+    ref_nm = Norm()
     for r in ast.parse(ref_src).body:
         if isinstance(r, ast.FunctionDef):
-            need(r.name in funcs and norm_fn(funcs[r.name]) == norm_fn(r)
+            need(r.name in funcs and norm_fn(funcs[r.name], nm) == norm_fn(r, ref_nm)
                  and sum(1 for st in tree.body
                          if isinstance(st, (ast.FunctionDef, ast.ClassDef)) and st.name == r.name) == 1,
                  '%s.%s differs from the source the interpreter\'s reading is pinned to' % (what, r.name))
@@ -327,13 +840,14 @@ def check_pinned(tree, ref_src, what):
             if isinstance(item, ast.FunctionDef):
                 got = [x for x in mem.get(item.name, []) if not is_setter(x, item.name)] \
                     if all(isinstance(x, ast.FunctionDef) for x in mem.get(item.name, [])) else []
-                need(len(got) == 1 and norm_fn(got[0]) == norm_fn(item),
+                drop = PINNED_DROP.get('%s.%s' % (r.name, item.name), ())
+                need(len(got) == 1 and norm_fn(got[0], nm, drop) == norm_fn(item, ref_nm, drop),
                      '%s.%s differs from the source the interpreter\'s reading is pinned to'
                      % (r.name, item.name))
             else:
-                nm = item.targets[0].id
-                got = mem.get(nm, [])
-                need(len(got) == 1 and ast.dump(got[0]) == ast.dump(item), '%s.%s changed' % (r.name, nm))
+                anm = item.targets[0].id
+                got = mem.get(anm, [])
+                need(len(got) == 1 and ast.dump(got[0]) == ast.dump(item), '%s.%s changed' % (r.name, anm))
 
 
 def check_module(tree, utree):
@@ -365,6 +879,8 @@ def check_module(tree, utree):
                         bind(x.id, 'assign')
                     elif isinstance(x, ast.Attribute) and not isinstance(x.ctx, ast.Load):
                         raise TranslationError('module-level attribute assignment at %s' % where(st))
+        elif isinstance(st, ast.AnnAssign) and isinstance(st.target, ast.Name):
+            bind(st.target.id, 'assign')
         elif isinstance(st, ast.Expr) and isinstance(st.value, ast.Constant):
             pass
         else:
@@ -410,10 +926,26 @@ def check_module(tree, utree):
         need([b.id if isinstance(b, ast.Name) else None for b in cl.bases] == bases
              and not cl.keywords and not cl.decorator_list, 'bases of %s changed' % nm)
     members = {nm: class_members(cmap[nm]) for nm in HIER}
+    args_members = class_members(cmap['TexArgs'])
     for attr, allowed in DEFINERS.items():
         got = sorted(nm for nm in HIER if attr in members[nm])
         need(got == sorted(allowed), 'the classes defining `%s` changed: %s' % (attr, got))
-    check_pinned(tree, PINNED_DATA, 'data')
+    # module-level helper functions that may be inlined; names that always denote a fresh list
+    helpers = {}
+    for st in tree.body:
+        if isinstance(st, ast.FunctionDef) and bound.get(st.name) == ['def'] and st.name not in BUILTINS \
+                and st.name not in ('to_list', 'Token', 'itertools'):
+            h = helper_info(st)
+            if h is not None:
+                helpers[st.name] = h
+    tolist = set()
+    for attr in MNAME:
+        defs = [d for nm in HIER for d in members[nm].get(attr, []) if not is_setter(d, attr)]
+        if defs and all(isinstance(d, ast.FunctionDef)
+                        and any(is_name(x, 'to_list') for x in d.decorator_list) for d in defs):
+            tolist.add(attr)
+    nm_ctx = Norm(helpers, tolist)
+    check_pinned(tree, PINNED_DATA, 'data', nm_ctx)
     # utils: to_list, Token
     ubound = {}
     for st in utree.body:
@@ -428,7 +960,7 @@ def check_module(tree, utree):
         need(len(ubound.get(nm, [])) == 1, 'binding of utils.%s changed' % nm)
     for nm in ('list', 'functools', 'str', 'getattr', 'isinstance'):
         need(nm not in ubound, 'utils rebinds %s' % nm)
-    check_pinned(utree, PINNED_UTILS, 'utils')
+    check_pinned(utree, PINNED_UTILS, 'utils', Norm())
     tmem = class_members(ubound['Token'][0])
     for nm in ('__match__', '__getattribute__', 'isspace', '__instancecheck__', '__class__'):
         need(nm not in tmem, 'class Token defines %s' % nm)
@@ -450,22 +982,75 @@ def check_module(tree, utree):
             if any(is_setter(d, nm) for d in defs):
                 # a setter rebinding the name must come after the getter it extends
                 need(defs[0] is fn, '%s.%s: setter before getter' % (cname, nm))
-            need(fn.returns is None, '%s.%s: annotated' % (cname, nm))
             out.append((cname, kind, nm, fn))
-    return out
+    members_all = dict(members)
+    members_all['TexArgs'] = args_members
+    return out, members_all, nm_ctx
+
+
+def single_def(members, cname, nm):
+    """the one plain def of `nm` in class cname (setters aside), or None"""
+    defs = members[cname].get(nm, [])
+    if not defs or not all(isinstance(d, ast.FunctionDef) for d in defs):
+        return None
+    getters = [d for d in defs if not is_setter(d, nm)]
+    if len(getters) != 1 or defs[0] is not getters[0]:
+        return None
+    return getters[0]
 
 
 # ---------------------------------------------------------------- one method
 
+KIND = {'TexNode': 'KNode', 'TexExpr': 'KExpr', 'TexEnv': 'KEnv'}
+# classes whose construction inside a view is outside the model (TNewOther)
+OTHER_CLASSES = [c for c in BASES if c != 'TexNode'] + ['CharToLineOffset', 'Token']
+
+
+class Translator(object):
+    """the methods found on the way: a private / otherwise unknown method of TexNode / TexExpr /
+    TexEnv that a translated body uses is translated too, under the name M_extra i"""
+
+    def __init__(self, members, nm):
+        self.members = members
+        self.nm = nm
+        self.index = {}       # key -> i
+        self.work = []        # (cname, kind, attr, fn, i)
+
+    def extra(self, cls, attr):
+        if attr in MNAME or attr in ATTR or attr in DEFINERS or attr in NODE_FIELDS:
+            return None
+        private = attr.startswith('__') and not attr.endswith('__')
+        if private:
+            classes = [cls] if attr in self.members.get(cls, {}) else []
+            key = (cls, attr)
+        else:
+            if attr.startswith('__'):
+                return None            # special methods are looked up by the interpreter's primitives
+            classes = [c for c in HIER if attr in self.members[c]]
+            key = attr
+        if not classes or not all(c in KIND for c in classes):
+            return None
+        fns = [single_def(self.members, c, attr) for c in classes]
+        if not all(f is not None for f in fns):
+            return None
+        if key not in self.index:
+            self.index[key] = len(self.index)
+            for c, f in zip(classes, fns):
+                self.work.append((c, KIND[c], attr, f, self.index[key]))
+        return '(M_extra %d%%nat)' % self.index[key]
+
+
 class Scope(object):
-    def __init__(self, owner, fn):
+    def __init__(self, owner, fn, tr=None, cls=None, init=False):
         a = fn.args
         need(not a.vararg and not a.kwonlyargs and not a.kw_defaults
              and not getattr(a, 'posonlyargs', []) and len(a.args) >= 1,
              '%s: unsupported parameter list' % owner)
-        for x in a.args + ([a.kwarg] if a.kwarg else []):
-            need(x.annotation is None, '%s: annotated parameter' % owner)
         self.owner = owner
+        self.tr = tr
+        self.cls = cls
+        self.init = init
+        self.loops = 0
         self.self_name = a.args[0].arg
         self.vars = {}
         self.nslots = 0
@@ -474,14 +1059,26 @@ class Scope(object):
             self.vars[x.arg] = self.nslots
             self.nslots += 1
         self.nparams = self.nslots
+        if init:
+            self.nslots += len(NODE_FIELDS)      # the instance attributes live in the next slots
         self.stack = []      # bound variables of lambdas / comprehensions
         for n in ast.walk(fn):
             need(not isinstance(n, (ast.FunctionDef, ast.AsyncFunctionDef, ast.ClassDef, ast.Await,
                                     ast.With, ast.Import, ast.ImportFrom, ast.While, ast.NamedExpr,
-                                    ast.SetComp, ast.DictComp, ast.Raise, ast.AugAssign, ast.Break,
+                                    ast.SetComp, ast.DictComp, ast.Raise, ast.AugAssign,
                                     ast.Continue, ast.Global, ast.Nonlocal, ast.Delete, ast.AsyncFor,
                                     ast.AsyncWith, ast.AnnAssign)) or n is fn,
                  '%s: unsupported construct at %s: %s' % (owner, where(n), type(n).__name__))
+
+    def method(self, attr):
+        """the interpreter's name of the method / property `attr`, or None"""
+        if attr.startswith('__') and not attr.endswith('__') and self.cls != 'TexNode' and attr in MNAME:
+            return None                # x.__descendants outside TexNode is another (mangled) name
+        if attr in MNAME:
+            return MNAME[attr]
+        if self.tr is not None:
+            return self.tr.extra(self.cls, attr)
+        return None
 
     def err(self, n, what):
         raise TranslationError('%s, %s: %s: %s' % (self.owner, where(n), what, shape(n)))
@@ -539,17 +1136,18 @@ class Scope(object):
         var = g.target.id
         trivial = is_name(n.elt, var)
         if g.ifs:
-            need(trivial, '%s: comprehension with both a condition and a computed element at %s'
-                 % (self.owner, where(n)))
-
             def cond():
                 parts = [self.ex(c) for c in g.ifs]
                 out = parts[-1]
                 for p in reversed(parts[:-1]):
                     out = 'TAnd (%s) (%s)' % (p, out)
                 return out
-            slot, c = self.binder(var, cond)
-            return 'TFilter %d%%nat (%s) (%s)' % (slot, c, it)
+            if trivial:
+                slot, c = self.binder(var, cond)
+                return 'TFilter %d%%nat (%s) (%s)' % (slot, c, it)
+            # [b for x in l if c]: b over the elements that pass c (one slot for x)
+            slot, (c, b) = self.binder(var, lambda: (cond(), self.ex(n.elt)))
+            return 'TMap %d%%nat (%s) (TFilter %d%%nat (%s) (%s))' % (slot, b, slot, c, it)
         slot, b = self.binder(var, lambda: self.ex(n.elt))
         return 'TMap %d%%nat (%s) (%s)' % (slot, b, it)
 
@@ -571,6 +1169,7 @@ class Scope(object):
         if isinstance(n, ast.Name):
             need(isinstance(n.ctx, ast.Load), 'name context')
             if n.id == self.self_name and not any(x == n.id for x, _ in self.stack):
+                need(not self.init, '%s: `%s` is read inside __init__ at %s' % (self.owner, n.id, where(n)))
                 return 'TSelf'
             slot = self.lookup(n.id)
             if slot is not None:
@@ -583,6 +1182,35 @@ class Scope(object):
                     and type(n.operand.value) is int:
                 return 'TInt %s' % zlit(-n.operand.value)
             self.err(n, 'unsupported unary operator')
+        if isinstance(n, ast.BinOp) and isinstance(n.op, ast.Mod) and isinstance(n.left, ast.Constant) \
+                and type(n.left.value) is str:
+            # 'a%sb' % x, 'a%sb%sc' % (x, y): only %s conversions
+            lits = n.left.value.split('%s')
+            need(not any('%' in l for l in lits), '%s: format string with a conversion other than %%s at %s'
+                 % (self.owner, where(n)))
+            if isinstance(n.right, ast.Tuple):
+                need(not any(isinstance(e, ast.Starred) for e in n.right.elts), 'starred tuple element')
+                args = list(n.right.elts)
+            else:
+                need(not isinstance(n.right, (ast.Dict, ast.List, ast.ListComp, ast.GeneratorExp, ast.Call,
+                                              ast.Name, ast.Subscript, ast.IfExp, ast.BinOp, ast.BoolOp)),
+                     '%s: right operand of %% that may be a tuple at %s' % (self.owner, where(n)))
+                args = [n.right]
+            need(len(args) == len(lits) - 1, '%s: format string and arguments differ in number at %s'
+                 % (self.owner, where(n)))
+            return 'TFormat [%s] %s' % ('; '.join(strlit(l) for l in lits), self.tms(args))
+        if isinstance(n, ast.JoinedStr):
+            # f'a{x}b': each plain field is format(x, '') = str(x) (no class defines __format__)
+            lits, args = [''], []
+            for v in n.values:
+                if isinstance(v, ast.Constant) and type(v.value) is str:
+                    lits[-1] += v.value
+                else:
+                    need(isinstance(v, ast.FormattedValue) and v.conversion == -1 and v.format_spec is None,
+                         '%s: f-string field with a conversion or format at %s' % (self.owner, where(n)))
+                    args.append(v.value)
+                    lits.append('')
+            return 'TFormat [%s] %s' % ('; '.join(strlit(l) for l in lits), self.tms(args))
         if isinstance(n, ast.BinOp):
             if isinstance(n.op, ast.Add):
                 return 'TAdd (%s) (%s)' % (self.ex(n.left), self.ex(n.right))
@@ -596,7 +1224,12 @@ class Scope(object):
                 out = '%s (%s) (%s)' % (con, p, out)
             return out
         if isinstance(n, ast.Compare):
-            ops = {ast.Eq: 'TEq', ast.NotEq: 'TNe', ast.In: 'TIn', ast.NotIn: 'TNotIn'}
+            ops = {ast.Eq: 'TEq', ast.NotEq: 'TNe', ast.In: 'TIn', ast.NotIn: 'TNotIn',
+                   ast.Lt: 'TCmp OLt', ast.LtE: 'TCmp OLe', ast.Gt: 'TCmp OGt', ast.GtE: 'TCmp OGe'}
+            if len(n.ops) == 1 and isinstance(n.ops[0], (ast.Is, ast.IsNot)) \
+                    and isinstance(n.comparators[0], ast.Constant) and n.comparators[0].value is None:
+                t = 'TIsNone (%s)' % self.ex(n.left)
+                return t if isinstance(n.ops[0], ast.Is) else 'TNot (%s)' % t
             if len(n.ops) != 1 or type(n.ops[0]) not in ops:
                 self.err(n, 'unsupported comparison')
             return '%s (%s) (%s)' % (ops[type(n.ops[0])], self.ex(n.left), self.ex(n.comparators[0]))
@@ -604,8 +1237,9 @@ class Scope(object):
             need(isinstance(n.ctx, ast.Load), 'attribute context')
             if n.attr in ATTR:
                 return 'TAttr %s (%s)' % (ATTR[n.attr], self.ex(n.value))
-            if n.attr in MNAME:
-                return 'TProp %s (%s)' % (MNAME[n.attr], self.ex(n.value))
+            m = self.method(n.attr)
+            if m is not None:
+                return 'TProp %s (%s)' % (m, self.ex(n.value))
             self.err(n, 'unsupported attribute')
         if isinstance(n, ast.Subscript):
             need(isinstance(n.ctx, ast.Load), 'subscript context')
@@ -645,6 +1279,8 @@ class Scope(object):
                 return 'TLen (%s)' % self.ex(a[0])
             if f.id == 'TexNode' and len(a) == 1:
                 return 'TNewNode (%s)' % self.ex(a[0])
+            if f.id in OTHER_CLASSES:
+                return 'TNewOther %s %s' % (strlit(f.id), self.tms(a))
             if f.id == 'filter' and len(a) == 2 and isinstance(a[0], ast.Lambda):
                 lam = a[0].args
                 need(len(lam.args) == 1 and not lam.vararg and not lam.kwonlyargs and not lam.kwarg
@@ -664,12 +1300,23 @@ class Scope(object):
                 return 'TChain %s' % self.tms(a)
             need(not any(isinstance(x, ast.Starred) for x in a),
                  '%s: starred arguments at %s' % (self.owner, where(n)))
+            if f.attr == 'join' and isinstance(f.value, ast.Constant) and type(f.value.value) is str \
+                    and len(a) == 1 and not kws and isinstance(a[0], (ast.ListComp, ast.GeneratorExp)):
+                c = a[0]
+                need(len(c.generators) == 1 and not c.generators[0].ifs and not c.generators[0].is_async
+                     and isinstance(c.generators[0].target, ast.Name),
+                     '%s: unsupported comprehension inside join at %s' % (self.owner, where(n)))
+                it = self.ex(c.generators[0].iter)
+                slot, b = self.binder(c.generators[0].target.id, lambda: self.ex(c.elt))
+                return 'TJoin %s %d%%nat (%s) (%s)' % (strlit(f.value.value), slot, b, it)
             if f.attr == 'isspace' and not a and not kws:
                 return 'TIsSpace (%s)' % self.ex(f.value)
             if f.attr == 'items' and not a and not kws:
                 return 'TItems (%s)' % self.ex(f.value)
-            if f.attr in MNAME:
-                m = MNAME[f.attr]
+            m = None
+            if not (isinstance(f.value, ast.Call) and is_name(f.value.func, 'super')) or f.attr in MNAME:
+                m = self.method(f.attr)
+            if m is not None:
                 is_super = (isinstance(f.value, ast.Call) and is_name(f.value.func, 'super')
                             and self.free('super') and not f.value.args and not f.value.keywords)
                 if is_super:
@@ -686,6 +1333,11 @@ class Scope(object):
     def stmt(self, s, prev):
         if isinstance(s, ast.Expr):
             v = s.value
+            if self.init and isinstance(v, ast.Call) and isinstance(v.func, ast.Attribute) \
+                    and v.func.attr == '__init__' and isinstance(v.func.value, ast.Call) \
+                    and is_name(v.func.value.func, 'super') and self.free('super') \
+                    and not v.func.value.args and not v.func.value.keywords and not v.args and not v.keywords:
+                return None            # object.__init__() : the base class is pinned to `object`
             if isinstance(v, ast.Yield):
                 need(v.value is not None, '%s: bare yield' % self.owner)
                 return ('atom', 'SYield (%s)' % self.ex(v.value))
@@ -700,6 +1352,12 @@ class Scope(object):
             if isinstance(t, ast.Name):
                 val = self.ex(s.value)
                 return ('atom', 'SAssign %d%%nat (%s)' % (self.declare(t.id), val))
+            if self.init and isinstance(t, ast.Attribute) and is_name(t.value, self.self_name) \
+                    and not self.stack:
+                need(t.attr in NODE_FIELDS, '%s: __init__ sets the unknown attribute %s at %s'
+                     % (self.owner, t.attr, where(s)))
+                return ('atom', 'SAssign %d%%nat (%s)'
+                        % (self.nparams + NODE_FIELDS.index(t.attr), self.ex(s.value)))
             if isinstance(t, ast.Attribute) and t.attr == 'parent' and isinstance(t.value, ast.Name) \
                     and t.value.id in self.vars and not self.stack:
                 # only directly after `x = TexNode(..)`: no alias of x can exist
@@ -719,6 +1377,7 @@ class Scope(object):
                         % (self.vars[t.value.id], strlit(idx.value), self.ex(s.value)))
             self.err(s, 'unsupported assignment target')
         if isinstance(s, ast.Return):
+            need(not self.init, '%s: return inside __init__ at %s' % (self.owner, where(s)))
             return ('atom', 'SReturn (%s)' % (self.ex(s.value) if s.value is not None else 'TNone'))
         if isinstance(s, ast.Assert):
             need(s.msg is None or (isinstance(s.msg, ast.Constant) and type(s.msg.value) is str),
@@ -732,13 +1391,13 @@ class Scope(object):
             it = self.ex(s.iter)
             if isinstance(s.target, ast.Name):
                 x = self.declare(s.target.id)
-                return ('for', 'SFor %d%%nat (%s)' % (x, it), self.block(s.body))
+                return ('for', 'SFor %d%%nat (%s)' % (x, it), self.loop_block(s.body))
             if isinstance(s.target, ast.Tuple) and len(s.target.elts) == 2 \
                     and all(isinstance(e, ast.Name) for e in s.target.elts) \
                     and s.target.elts[0].id != s.target.elts[1].id:
                 x = self.declare(s.target.elts[0].id)
                 y = self.declare(s.target.elts[1].id)
-                return ('for', 'SFor2 %d%%nat %d%%nat (%s)' % (x, y, it), self.block(s.body))
+                return ('for', 'SFor2 %d%%nat %d%%nat (%s)' % (x, y, it), self.loop_block(s.body))
             self.err(s, 'unsupported loop target')
         if isinstance(s, ast.Try):
             need(len(s.body) == 1 and isinstance(s.body[0], ast.Return) and s.body[0].value is not None
@@ -751,7 +1410,17 @@ class Scope(object):
             return ('try', 'STryReturn (%s) %s' % (t, EXN[h.type.id]), self.block(h.body))
         if isinstance(s, ast.Pass):
             return None
+        if isinstance(s, ast.Break):
+            need(self.loops > 0, '%s: break outside a loop at %s' % (self.owner, where(s)))
+            return ('atom', 'SBreak')
         self.err(s, 'unsupported statement')
+
+    def loop_block(self, body):
+        self.loops += 1
+        try:
+            return self.block(body)
+        finally:
+            self.loops -= 1
 
     def block(self, body):
         out = []
@@ -794,8 +1463,9 @@ def has_yield(fn):
     return found
 
 
-def translate_method(owner, fn):
-    sc = Scope(owner, fn)
+def translate_method(owner, fn, tr=None, cls=None, init=False):
+    fn = normalise_fn(fn, tr.nm if tr is not None else Norm())
+    sc = Scope(owner, fn, tr, cls, init)
     a = fn.args
     names = [x.arg for x in a.args[1:]]
     nd = len(a.defaults)
@@ -803,6 +1473,8 @@ def translate_method(owner, fn):
     params = ['None'] * (len(names) - nd) + ['Some (%s)' % default_value(owner, d) for d in a.defaults]
     # a tuple default is immutable, None too: nothing to check about sharing
     is_prop, is_tolist = decorators(owner, fn)
+    if init:
+        need(not is_prop and not is_tolist and not a.kwarg, '%s: decorated __init__' % owner)
     if is_prop:
         need(not names and not a.kwarg, '%s: property with parameters' % owner)
     body = strip_doc(fn.body)
@@ -814,7 +1486,9 @@ def translate_method(owner, fn):
             pass
     prog = sc.block(body)
     nlocals = sc.nslots - sc.nparams
-    return dict(params=params, kwargs=a.kwarg is not None, nlocals=nlocals, gen=gen,
+    if init:
+        need(not gen, '%s: yield inside __init__' % owner)
+    return dict(params=params, pnames=names, kwargs=a.kwarg is not None, nlocals=nlocals, gen=gen,
                 tolist=is_tolist, prop=is_prop, prog=prog)
 
 
@@ -847,7 +1521,9 @@ def coqbool(b):
     return 'true' if b else 'false'
 
 
-def gen_name(cname, nm):
+def gen_name(cname, nm, extra=False):
+    if extra:
+        return 'gen_%s_x_%s' % (cname, nm.strip('_'))
     return 'gen_%s_%s' % (cname, {'__descendants': 'priv_descendants'}.get(nm, nm.strip('_')))
 
 
@@ -856,7 +1532,8 @@ def generate():
         tree = ast.parse(f.read())
     with open(os.path.join(REPO, 'TexSoup', 'utils.py')) as f:
         utree = ast.parse(f.read())
-    meths = check_module(tree, utree)
+    meths, members, nm_ctx = check_module(tree, utree)
+    tr = Translator(members, nm_ctx)
     out = []
     w = out.append
     w('(* GENERATED by harness/gen_views.py from TexSoup/data.py -- do not edit.')
@@ -866,25 +1543,59 @@ def generate():
     w('Import ListNotations.')
     w('')
     table = {}
-    for cname, kind, nm, fn in meths:
-        owner = '%s.%s' % (cname, nm)
-        m = translate_method(owner, fn)
-        g = gen_name(cname, nm)
-        table[(kind, nm)] = g
+    used = set()
+
+    def emit(owner, g, m):
+        need(g not in used, 'two methods are both called %s' % g)
+        used.add(g)
         w('(* def %s *)' % owner)
         w('Definition %s : mdef :=' % g)
-        w('  mkM [%s] %s %d%%nat %s %s %s' % ('; '.join(m['params']), coqbool(m['kwargs']), m['nlocals'],
-                                              coqbool(m['gen']), coqbool(m['tolist']), coqbool(m['prop'])))
+        w('  mkM [%s] [%s] %s %d%%nat %s %s %s'
+          % ('; '.join(m['params']), '; '.join(strlit(x) for x in m['pnames']), coqbool(m['kwargs']),
+             m['nlocals'], coqbool(m['gen']), coqbool(m['tolist']), coqbool(m['prop'])))
         lines = pp_block(m['prog'], 4)
         lines[-1] += '.'
         out.extend(lines)
         w('')
+    for cname, kind, nm, fn in meths:
+        owner = '%s.%s' % (cname, nm)
+        g = gen_name(cname, nm)
+        table[(kind, nm)] = g
+        emit(owner, g, translate_method(owner, fn, tr, cname))
+    # TexNode.__init__ : what TexNode(x) builds
+    init = single_def(members, 'TexNode', '__init__')
+    need(init is not None, 'TexNode.__init__: expected exactly one plain def')
+    m = translate_method('TexNode.__init__', init, tr, 'TexNode', init=True)
+    need(len(m['params']) == 2 and m['params'][0] == 'None' and m['params'][1] == 'Some (VNone)',
+         'TexNode.__init__: expected the parameters (self, expr, src=None)')
+    emit('TexNode.__init__', 'gen_TexNode_init', m)
+    # the __str__ methods (not part of the class table, see ViewDSL.run_plain)
+    for cname in STR_TABLE:
+        fn = single_def(members, cname, '__str__')
+        need(fn is not None, '%s.__str__: expected exactly one plain def' % cname)
+        m = translate_method('%s.__str__' % cname, fn, tr, cname)
+        need(not m['params'] and not m['kwargs'] and not m['prop'] and not m['tolist'] and not m['gen'],
+             '%s.__str__: expected a plain method without parameters' % cname)
+        emit('%s.__str__' % cname, 'gen_%s_str' % cname, m)
+    # methods found on the way
+    extras = []
+    done = 0
+    while done < len(tr.work):
+        cname, kind, nm, fn, i = tr.work[done]
+        done += 1
+        owner = '%s.%s' % (cname, nm)
+        g = gen_name(cname, nm, True)
+        extras.append((kind, i, g))
+        emit(owner, g, translate_method(owner, fn, tr, cname))
     w('Definition gen_v_cls : cls := fun k m =>')
     w('  match k, m with')
     for cname, kind, names in TABLE:
         for nm in MORDER:
             if (kind, nm) in table:
                 w('  | %s, %s => Some %s' % (kind, MNAME[nm], table[(kind, nm)]))
+    w('  | KNode, M_init => Some gen_TexNode_init')
+    for kind, i, g in extras:
+        w('  | %s, M_extra %d%%nat => Some %s' % (kind, i, g))
     w('  | _, _ => None')
     w('  end.')
     return '\n'.join(out) + '\n'
